@@ -504,3 +504,20 @@ func (r *Report) Finish(verifDir string, explanation string, configs []string, s
 	}
 	return exit
 }
+
+// ViolatedKeys lists rule|construct of every violated or undecided obligation
+// and every fatal message (used to compare a mutated tree with the real one).
+func (r *Report) ViolatedKeys() map[string]bool {
+	r.mu.Lock()
+	defer r.mu.Unlock()
+	out := map[string]bool{}
+	for _, o := range r.Obs {
+		if o.Status == Violated || o.Status == Undecided {
+			out[o.Rule+" | "+o.Construct] = true
+		}
+	}
+	for _, f := range r.Fatal {
+		out["fatal: "+f] = true
+	}
+	return out
+}
